@@ -163,6 +163,7 @@ PROPS = {
     ),
     "C13": dict(
         driver="C13",
+        also_drivers=["C10"],   # builder settings of the composite futures (flags, offsets, zero-copy) are exercised by C10's driver and model
         model="Model/Encode.v + Model/ResultDecode.v",
         run_fn="run_c13case_fixed",
         theorems=["C13_encode_matches_abi_except_h20_h24", "C13_h20_splice_to_direct_swaps_tables",
